@@ -350,28 +350,25 @@ func C13(c *Ctx) {
 		need(c, r4, enc, false, "BigEndian.PutUint32", Named("(encoding/binary.bigEndian).PutUint32"), 2)
 	}
 	if dec := c.Fn("wal", "DecodeRecord"); dec != nil {
-		crcCalls := Calls(dec, false, Named("kv.CRC32"))
 		n, same := 0, false
-		for _, w := range Calls(dec, false, Named("(hash.Hash).Write", "(io.Writer).Write", "(hash.Hash32).Write")) {
-			if len(crcCalls) > 0 && w.Common().Value == crcCalls[0].Value() {
-				n++
-				hb := w.Common().Args[0]
-				// the hashed buffer was filled from the reader (io.ReadFull or a read helper taking
-				// the reader and this buffer) before it is hashed, and it is the length-sized allocation
-				for _, rd := range Calls(dec, false, func(cc *ssa.CallCommon) bool { return true }) {
-					direct, helper := isReadSite(dec, rd, 1)
-					if !direct && helper == nil {
-						continue
+		for _, hw := range hashedBuffers(c, dec, 1) {
+			n++
+			hb, w := hw.buf, hw.at
+			// the hashed buffer was filled from the reader (io.ReadFull or a read helper taking
+			// the reader and this buffer) before it is hashed, and it is the length-sized allocation
+			for _, rd := range Calls(dec, false, func(cc *ssa.CallCommon) bool { return true }) {
+				direct, helper := isReadSite(dec, rd, 1)
+				if !direct && helper == nil {
+					continue
+				}
+				takes := false
+				for _, a := range rd.Common().Args {
+					if a == hb {
+						takes = true
 					}
-					takes := false
-					for _, a := range rd.Common().Args {
-						if a == hb {
-							takes = true
-						}
-					}
-					if _, isMake := hb.(*ssa.MakeSlice); takes && isMake && Dominates(rd.(ssa.Instruction), w.(ssa.Instruction)) {
-						same = true
-					}
+				}
+				if _, isMake := hb.(*ssa.MakeSlice); takes && isMake && Dominates(rd.(ssa.Instruction), w) {
+					same = true
 				}
 			}
 		}
@@ -413,6 +410,18 @@ func checksumGuard(c *Ctx, rule string, fn *ssa.Function, sumM Matcher, verM Mat
 		return
 	}
 	sums := Calls(fn, true, sumM)
+	// a same-package helper that returns the computed sum counts as the computation
+	for _, v := range valueSites(c, fn, sumM, 1) {
+		dup := false
+		for _, s := range sums {
+			if s == v {
+				dup = true
+			}
+		}
+		if !dup {
+			sums = append(sums, v)
+		}
+	}
 	match := map[[2]*ssa.BasicBlock]bool{}
 	var compares int
 	for _, b := range fn.Blocks {
@@ -489,8 +498,10 @@ func C14(c *Ctx) {
 	checksumGuard(c, r1, c.Fn("kv", "DecodeValueSlice"), sum32, nil, "value-log value slice")
 	checksumGuard(c, r1, c.Fn("utils", "VerifyChecksum"), sum32, nil, "block/index checksum helper")
 	if fn := c.Fn("lsm", "table.loadBlock"); fn != nil {
-		ver := Named("lsm.(block).verifyCheckSum", "lsm.(*block).verifyCheckSum")
-		vc := need(c, r1, fn, false, "block.verifyCheckSum", ver, 1)
+		// utils.VerifyChecksum itself, or a helper (block.verifyCheckSum, a trailer decoder)
+		// whose success implies that it succeeded
+		vc := verifySites(c, fn, Named("utils.VerifyChecksum"), 2)
+		c.Decide(len(vc) >= 1, r1, key(fn, "has:block.verifyCheckSum"), fn.Pos(), len(vc)+1, fmt.Sprintf("%d verification site(s) reaching utils.VerifyChecksum", len(vc)), "loadBlock no longer verifies the block checksum (no call whose success implies utils.VerifyChecksum succeeded)")
 		// cache insertion and fresh-block return behind verification
 		for i, a := range need(c, r1, fn, false, "cache.addBlock", Named("lsm.(*cache).addBlock"), 1) {
 			succOK(c, r1, key(fn, fmt.Sprintf("addBlock[%d]<-ok(verifyCheckSum)", i+1)), fn, vc, "verifyCheckSum", a.(ssa.Instruction), "block cache insertion")
@@ -510,9 +521,6 @@ func C14(c *Ctx) {
 				c.Fail(r1, k, r.Pos(), 2, "a block is returned without checksum verification")
 			}
 		}
-	}
-	if fn := c.Fn("lsm", "block.verifyCheckSum"); fn != nil {
-		need(c, r1, fn, false, "utils.VerifyChecksum", Named("utils.VerifyChecksum"), 1)
 	}
 	if fn := c.Fn("file", "SSTable.initTable"); fn != nil {
 		vc := need(c, r1, fn, false, "utils.VerifyChecksum", Named("utils.VerifyChecksum"), 1)
@@ -559,4 +567,48 @@ func C14(c *Ctx) {
 			}
 		}
 	}
+}
+
+type hashWrite struct {
+	buf ssa.Value       // the hashed bytes, as a value of the analysed function
+	at  ssa.Instruction // where (in the analysed function) the hashing happens
+}
+
+// hashedBuffers lists the buffers fn feeds into a pooled CRC hasher (kv.CRC32().Write(buf)),
+// directly or through a same-package helper that hashes one of its parameters.
+func hashedBuffers(c *Ctx, fn *ssa.Function, depth int) []hashWrite {
+	var out []hashWrite
+	crc := map[ssa.Value]bool{}
+	for _, cc := range Calls(fn, false, Named("kv.CRC32")) {
+		crc[cc.Value()] = true
+	}
+	writeM := Named("(hash.Hash).Write", "(io.Writer).Write", "(hash.Hash32).Write")
+	AllInstrs(fn, false, func(in ssa.Instruction) {
+		ci, ok := in.(ssa.CallInstruction)
+		if !ok {
+			return
+		}
+		if writeM(ci.Common()) && crc[ci.Common().Value] {
+			out = append(out, hashWrite{ci.Common().Args[0], in})
+			return
+		}
+		if depth <= 0 {
+			return
+		}
+		h := StaticFn(ci.Common())
+		if h == nil || h.Blocks == nil || h == fn || FuncPkgPath(h) != FuncPkgPath(fn) {
+			return
+		}
+		for _, hw := range hashedBuffers(c, h, depth-1) {
+			if p, ok := hw.buf.(*ssa.Parameter); ok {
+				for i, hp := range h.Params {
+					if hp == p && i < len(ci.Common().Args) {
+						c.Touch(h)
+						out = append(out, hashWrite{ci.Common().Args[i], in})
+					}
+				}
+			}
+		}
+	})
+	return out
 }
